@@ -667,13 +667,19 @@ def env_wire(spec, inp):
     return {"root": "app", "vals": vals, "cfgs": cfgs}
 
 
-def layer_requests(spec, inp, call):
-    """the concrete layer of the model for every layer that a captured handle_subcommands call obtained from a sub-parser"""
+def layer_requests(spec, inp, call, seen=None):
+    """the concrete layer of the model for every layer that a captured handle_subcommands call obtained from a sub-parser
+    (`seen`: the same sub-parser under the same stack is asked for many times during one parse; compared once)"""
     out = []
     pw = None
     for dotted, meta in call.get("layer_meta", {}).items():
         if meta["path"] is None or any(p is None for _, p in meta["ctx"]) or dotted not in call["layers"]:
             continue
+        if seen is not None:
+            key = (tuple(meta["path"]), meta["fn"], call["single"], json.dumps(meta["ctx"]), json.dumps(call["layers"][dotted], sort_keys=True))
+            if key in seen:
+                continue
+            seen.add(key)
         if pw is None:
             pw = p_wire_conc(spec)
             ew = env_wire(spec, inp) if inp is not None else {"root": "app", "vals": [], "cfgs": []}
@@ -1275,13 +1281,14 @@ def check_case(ctx, spec, inp, origin, stats):
     """run one (spec, input): record, correspond, judge.  Returns the requests for the model with their expectations."""
     real = real_run(spec, inp)
     reqs = []
+    seen_layers = set()
     # (a) captured handle_subcommands calls
     for c in real["calls"]:
         if c["path"] is None or c.get("layer_failed") or "out" not in c:
             stats["skipped_calls"] += 1
             continue
         reqs.append((call_request(spec, c), canon_out(c["out"]), "handle", c))
-        reqs.extend(layer_requests(spec, inp, c))
+        reqs.extend(layer_requests(spec, inp, c, seen_layers))
     # captured get_subcommands calls
     for g in real["gets"]:
         if g["path"] is None or "out" not in g:
@@ -1362,7 +1369,7 @@ def run(ctx: Ctx):
         if "spec" in c:
             cases.append((c["spec"], c["input"], "corpus"))
     n_corpus = len(cases)
-    n_random = ctx.budget(1200, 24000) * (2 if ctx.search_boost > 1 else 1)
+    n_random = ctx.budget(950, 24000) * (2 if ctx.search_boost > 1 else 1)
     spec = None
     for i in range(n_random):
         if spec is None or i % 4 == 0:
@@ -1657,7 +1664,7 @@ def tree_to_wire_ns(t):
 
 
 def direct_stage(ctx, stats):
-    n = ctx.budget(400, 8000) * (2 if ctx.search_boost > 1 else 1)
+    n = ctx.budget(320, 8000) * (2 if ctx.search_boost > 1 else 1)
     reqs = []
     spec = None
     for i in range(n):
